@@ -13,7 +13,7 @@ GATES = ["Sgate", "Dgate", "BSgate", "Rgate", "Kgate", "Xgate"]
 def gen_template(rng):
     """affine single-parameter positional arguments, parameters possibly repeated across operations"""
     npar = rng.randint(1, 3)
-    pars = rng.sample(["a", "b", "phi", "r", "th"], npar)
+    pars = rng.sample(["a", "b", "phi", "r", "th", "x", "y", "var", "res", "val", "lambda", "is", "E", "I", "S", "N", "oo", "rhs", "np"], npar)
     nops = rng.randint(1, 7)
     nmodes = rng.randint(1, 4)
     ops = []
